@@ -31,18 +31,36 @@ def lookup_loops(F):
         lp = loops[0]
         d = fn.n(lp["init"])["decls"][0]
         iv = ("var", d["n"], d["d"])
-        ifs = [fn.n(x) for x in fn.subtree(lp["body"]) if fn.n(x)["k"] == "IfStmt"]
-        if len(ifs) != 1:
-            raise AnalysisBroken("%s: expected one test in the loop" % fn.qn)
+        body = fn.subtree(lp["body"])
+        all_ifs = [fn.n(x) for x in body if fn.n(x)["k"] == "IfStmt"]
         ren = {iv: ("I",), P(fn, 0): ("NAME",)}
-        shape = (substitute(fn.term(d["init"]), ren), substitute(fn.term(lp["cond"]), ren), substitute(fn.term(ifs[0]["cond"]), ren))
-        rets = [r for r in returns(fn) if r["id"] in fn.subtree(ifs[0]["then"])]
-        shapes[name] = (fn, shape, ifs[0], rets, iv)
+        # every way out of the loop body other than falling through to the next iteration, with the test that guards it
+        exits = []
+        for x in body:
+            k = fn.n(x)["k"]
+            if k not in ("BreakStmt", "ReturnStmt", "GotoStmt", "CXXThrowExpr"):
+                continue
+            guards = [i for i in all_ifs if x in fn.subtree(i["id"]) and x != i["id"]]
+            g = max(guards, key=lambda i: i["id"]) if guards else None
+            exits.append((k, substitute(fn.term(g["cond"]), ren) if g else ("const", 1), g, x))
+        match = [e for e in exits if e[0] == "ReturnStmt" and e[2] is not None]
+        if len(match) != 1:
+            raise AnalysisBroken("%s: expected exactly one guarded return (the match) in the loop" % fn.qn)
+        others = [e for e in exits if e is not match[0]]
+        shape = (substitute(fn.term(d["init"]), ren), substitute(fn.term(lp["cond"]), ren), match[0][1],
+                 tuple(sorted((e[0], e[1]) for e in others)))
+        rets = [r for r in returns(fn) if r["id"] in fn.subtree(match[0][2]["then"])]
+        shapes[name] = (fn, shape, match[0][2], rets, iv)
     (f1, s1, i1, r1, v1), (f2, s2, i2, r2, v2) = shapes["Contains"], shapes["GetIndex"]
     inst = ARC + "#Contains~GetIndex"
     req = "membership and index lookup scan the same range with the same predicate"
-    if s1 == s2:
-        out.append(ok("R-SIB", inst, f1.loc(i1["id"]), f1.qn, req, "for (i = %s; %s; ++i) if (%s)" % tuple(fmt_term(x) for x in s1)))
+    if s1 == s2 and not s1[3]:
+        out.append(ok("R-SIB", inst, f1.loc(i1["id"]), f1.qn, req, "for (i = %s; %s; ++i) if (%s)" % tuple(fmt_term(x) for x in s1[:3])))
+    elif s1[:3] == s2[:3]:
+        extra = ["%s leaves the scan early on %s (%s)" % (nm, fmt_term(c), k) for nm, sh in (("Contains", s1), ("GetIndex", s2)) for (k, c) in sh[3]]
+        fx = f2 if s2[3] else f1
+        out.append(bad("R-SIB", inst, fx.loc((i2 if s2[3] else i1)["id"]), fx.qn, req + ", and neither stops before the end on any other condition",
+                       "; ".join(extra) + ": a member that matches later in the list is found by one lookup and not the other unless the list is sorted by exactly that order"))
     else:
         out.append(bad("R-SIB", inst, f1.loc(i1["id"]), f1.qn, req,
                        "Contains tests %s over %s; GetIndex tests %s over %s" % (fmt_term(s1[2]), fmt_term(s1[1]), fmt_term(s2[2]), fmt_term(s2[1]))))
